@@ -36,6 +36,8 @@ def plan(tier, seed):
         jobs.append({"variant": v, "part": "digits", "params": {}})
         jobs.append({"variant": v, "part": "nfkc", "params": {}})
         jobs.append({"variant": v, "part": "ascii", "params": {}})
+        # ... and once more AFTER a cache reconfiguration (what is rejected must not depend on it)
+        jobs.append({"variant": v, "part": "ascii", "shard": 1, "params": {"preconfigure": {} if v == "c" else {"encode_host_size": 0}}})
     n = 16 if thorough else 4
     for s in range(n):
         jobs.append({"variant": "c" if s % 2 else "py", "part": "ipv6", "shard": s, "nshards": n, "params": {"addrs": 600 if thorough else 40}})
@@ -197,7 +199,8 @@ def run_ascii(ctx):
                         ctx.count("rejected_ok")
     # the same alphabet in ZONE position of an IP literal: the zone id goes into the authority verbatim, so a character
     # outside the reg-name grammar there is exactly as hostile as in the name itself
-    for o in range(128):
+    # (plus non-ASCII characters whose lower / upper / case-folded form is ASCII: U+212A KELVIN SIGN -> 'k', U+017F LONG S -> 's' ...)
+    for o in list(range(128)) + [0x212A, 0x017F, 0x0130, 0x0131, 0xDF, 0x1E9E, 0xFB01, 0x2126, 0xE9, 0xFF21]:
         ch = chr(o)
         if ch in ":%":
             continue
@@ -228,6 +231,22 @@ def run_ascii(ctx):
                         ctx.fail("zone_not_verbatim", case, f"raw_host={rh!r} re-parsed {back!r}")
                     else:
                         ctx.count("zone_kept")
+    # the same alphabet AROUND and INSIDE IP literals (plus Unicode spaces): a character outside the grammar next to an address is
+    # not "trimmed away" - the host is rejected
+    for ch in [chr(o) for o in range(128)] + ["\u3000", "\xa0", "\u2003", "\x85"]:  # (not U+200B / U+FEFF: UTS #46 maps them to nothing)
+        if ch in ":%" or ch in rfc.REG_NAME_CHARS:
+            continue
+        for h in (f"{ch}127.0.0.1", f"127.0.0.1{ch}", f"{ch}::1", f"::1{ch}", f"2001:db8::1{ch}", f"{ch}fe80::1%eth0", f"12{ch}7.0.0.1", f"::{ch}1", f"{ch}{ch}10.0.0.1"):
+            for route, fn in (("build_host", lambda: URL.build(scheme="http", host=h)), ("with_host", lambda: base.with_host(h))):
+                r = guarded(fn)
+                ctx.ev((route, "ip+junk", ord(ch), "exc" if is_exc(r) else "ok"))
+                case = {"route": route, "host": h}
+                if not is_exc(r):
+                    ctx.fail("illegal_host_char_accepted", case, f"raw_host={guarded(lambda: r.raw_host)!r} str={guarded(str, r)!r}")
+                elif r.type != "ValueError" and not r.type.startswith("Unicode") and r.type not in ("IDNAError", "InvalidCodepoint"):
+                    ctx.fail("wrong_exception", case, f"{r!r}")
+                else:
+                    ctx.count("rejected_ok")
     # the same alphabet inside NON-ASCII hosts (the IDNA route), with the tails that send the encoded text down the IP-literal
     # branch afterwards (a final digit, a ':'): an illegal ASCII character must be rejected on every route through the encoder
     for o in range(128):
